@@ -68,6 +68,29 @@ theorem spec_verdict_ok_partial (w : World) (t : FdTable) (k : Kind) (rs : List 
       Bool.false_and, c4]
     exact .inl (spec_tail_ok w t k rs prev)
 
+/-- ★ the Spec column on the model's own run, without exception, for every kind that does not retain its
+    redirections (all kinds but the `exec` family and `guardkeep`): the verdict is `ok` for every world,
+    every table meeting `WF` and every list — restoration, nothing at or above 10 left, no CLOEXEC
+    descriptor below 10 left / visible / present after a step, saved copies at or above 10 and CLOEXEC -/
+theorem spec_verdict_ok_nonexec (w : World) (t : FdTable) (k : Kind) (rs : List Redir) (prev : Nat) (hw : WF t)
+    (hk : k.isExec = false) :
+    specVerdict t k rs (runCommand w t k rs prev) = "ok" := by
+  have hP := persists_iff w t k rs prev
+  have c2 := check_noExtraInternal w t k rs prev hw
+  have c4 := check_noLowCloexec_after w t k rs prev hw
+  unfold specVerdict
+  simp only [hP]
+  have hx' : (k.isExec && (performRedirs worldOracle w t rs).err.isNone) = false := by simp [hk]
+  have hne : k.isExec = true → (performRedirs worldOracle w t rs).err ≠ none := by
+    intro h; rw [hk] at h; cases h
+  have c1 := spec_restoration_check_passes w t k rs prev hw hne
+  simp only [hx', Bool.false_eq_true, if_false] at c2 ⊢
+  simp only [Bool.not_false, Bool.true_and, c1, Bool.not_true, Bool.false_eq_true, ↓reduceIte, c2,
+    Bool.false_and, c4]
+  exact spec_tail_ok w t k rs prev
+
+example : Kind.isExec .dot = false ∧ Kind.isExec .special = false ∧ Kind.isExec .guardUndo = false := by decide
+
 -- non-vacuity: a guard run whose second item fails, and a successful `exec 4>b`
 example : specVerdict stdTable .guardUndo [⟨1, .file .fileOut 3⟩, ⟨0, .file .fileIn 5⟩]
       (runCommand (stdWorld false) stdTable .guardUndo [⟨1, .file .fileOut 3⟩, ⟨0, .file .fileIn 5⟩]) = "ok" ∧
